@@ -14,6 +14,12 @@ def has_wide_field(adef):
     return False
 
 
+def zero_size_registers(c):
+    nm = c.get("names") or {}
+    pas = lambda x: nm.get("pascal", {}).get(x, x)
+    return [pas(o["name"]) for o in oracles.all_objects(c["adef"]["objects"]) if o["kind"] == "register" and o.get("size_bits") == 0]
+
+
 def classify_compile_errors(c, errs):
     """Known-finding classes for rustc errors of one accepted definition; returns (class id or None)."""
     adef = c["adef"]
@@ -36,6 +42,13 @@ def classify_compile_errors(c, errs):
                 continue
         if ("cannot find type `u256`" in e or "cannot find type `i256`" in e or "cannot find type `u512`" in e or "cannot find type `i512`" in e) and has_wide_field(adef):
             classes.add("F18-field-wider-than-128-bits-gets-a-nonexistent-carrier")
+            continue
+        if e.split(" ")[0] in ("E0428", "E0592", "E0119", "E0107", "E0726", "E0599", "E0034", "E0308", "E0061", "E0423", "E0574", "E0532") and oracles.derived_name_clashes(c):
+            classes.add("F21-derived-identifiers-clash")
+            continue
+        zs = zero_size_registers(c)
+        if zs and any((f"`{z}`" in e) and ("field_sets" in e or "FieldSetValue" in e) for z in zs):
+            classes.add("F20-zero-size-register-has-no-field-set")
             continue
         if "cannot apply unary operator `-`" in e or ("E0600" in e):
             classes.add("F15-negative-literal-in-unsigned-internal-type")
@@ -73,6 +86,12 @@ def correspond_c19(tier, impl_only=False):
         key = hashlib.sha1(json.dumps([c["syntax"], c["adef"]], sort_keys=True).encode()).hexdigest()
         if key not in seen and len(list(oracles.all_objects(c["adef"]["objects"]))) >= 2:
             seen.add(key)
+        if af.get("outcome") == "unparsable":
+            kw = oracles.keyword_names(c)
+            res.spec_violations.append({"case": p_gen.slim(c), "impl": af,
+                                        "why": "the definition is accepted but the emitted tokens are not a syntactically valid Rust file: " + str(af.get("message"))[:160],
+                                        "finding": "F19-rust-keyword-as-a-name" if kw else None})
+            continue
         if model is not None:
             m = model.get(c["id"])
             if m is None or "facts" not in m:
